@@ -109,7 +109,8 @@ class MapResponse:
         return list(result.keys()) == ids_of(sensors)
 
     def make_result(ex, bound):
-        return {s.id_: ex.fresh_any("val_" + s.id_) for s in bound["sensors"]}
+        from pyvc import inverter_harness as ih
+        return ih.map_response_result(ex, bound["response"], bound["sensors"])
 
     # loop over the (concrete) tuple of rows: arbitrary-iteration rule with the state rebuilt from the invariant
     def loop0_inv(sensors, result, _i):
